@@ -189,6 +189,62 @@ func cntScan(data []byte) ([]content.Operator, error) {
 	}))
 }
 
+// cntChunkReader delivers data in chunks of random sizes (a fault-free
+// io.Reader with arbitrary chunking; the last chunk comes with or without io.EOF).
+type cntChunkReader struct {
+	data        []byte
+	r           *Rand
+	mode        int // 0: random sizes, 1: one byte at a time, 2: sizes around the 512-byte window
+	eofWithData bool
+}
+
+func (c *cntChunkReader) Read(p []byte) (int, error) {
+	if len(c.data) == 0 {
+		return 0, io.EOF
+	}
+	if len(p) == 0 {
+		return 0, nil
+	}
+	n := 1
+	switch c.mode {
+	case 0:
+		n = 1 + c.r.Intn(700)
+	case 2:
+		n = 509 + c.r.Intn(6)
+	}
+	n = min(n, len(p), len(c.data))
+	copy(p, c.data[:n])
+	c.data = c.data[n:]
+	if len(c.data) == 0 && c.eofWithData {
+		return n, io.EOF
+	}
+	return n, nil
+}
+
+func (c *cntChunkReader) Close() error { return nil }
+
+// cntScanChunked scans data through a reader with random chunking.
+func cntScanChunked(data []byte, r *Rand) ([]content.Operator, error) {
+	return cntCollect(content.NewScanner(func() (io.ReadCloser, error) {
+		return &cntChunkReader{data: append([]byte(nil), data...), r: r, mode: r.Intn(3), eofWithData: r.Bool()}, nil
+	}))
+}
+
+// cntSameScan: the scanner's result must not depend on how the reader chunks the data
+// (Props/C15cntu: the buffered leaf operations refine the whole-input model for every chunking).
+func cntSameScan(c *Ctx, data []byte, r *Rand) {
+	want := cntImplScanLine(data)
+	got, err := cntScanChunked(data, r)
+	line := "ok " + cntOpsWire(got, true)
+	if err != nil {
+		line = "err " + err.Error()
+	}
+	c.Stat("chunked_rescans")
+	if line != want {
+		c.Violate("chunking", "scanner-chunking", fmt.Sprintf("scanning %q through a chunked reader gives %s, in one piece %s", truncate(string(data)), truncate(line), truncate(want)), hx(data))
+	}
+}
+
 // cntScanSegments reads several in-memory segments the way a page with a
 // Contents array is read (page.SegmentsReader joins them with a newline).
 func cntScanSegments(parts [][]content.Operator) ([]content.Operator, error) {
